@@ -24,6 +24,7 @@ import Goat.Drv.PxOps
 import Goat.UnaryReply
 import Goat.CfgMap
 import Goat.OpenStream
+import Goat.HttpTable
 import Goat.Props.C02
 open Goat Goat.Drv
 
@@ -360,6 +361,30 @@ def evalOp (op input : String) : Option String :=
   | "chainlog" => match input.splitOn "|" with
     | [n, req] => do let n ← n.toNat?; let req ← parseHex req; some (chainRun n req)
     | _ => none
+  | "httptable" =>
+    -- ops: N<a> NewConnection(a) -> obj<i>; T all connections idle out; W<i> a Write on object i fails; R<i> Read on object i
+    let ops := if input = "_" then [] else input.splitOn " "
+    let stepOp (acc : Option (HttpTable.State × List String)) (op : String) : Option (HttpTable.State × List String) := do
+      let (s, outs) ← acc
+      let arg := (String.ofList (op.toList.drop 1)).toNat?
+      match op.toList.head? with
+      | some 'N' => do
+        let a ← arg
+        let s1 ← HttpTable.step s (.retrieve a)
+        let j ← HttpTable.lookup s1.table a
+        some (s1, outs ++ [s!"obj{j}"])
+      | some 'T' => do
+        let s1 ← HttpTable.step s (.sweep (s.table.map (·.1)))
+        some (s1, outs ++ ["ok"])
+      | some 'W' => do
+        let i ← arg
+        let s1 ← HttpTable.step s (.writeFail i)
+        some (s1, outs ++ [if s1.panicked then "panic" else "err"])
+      | some 'R' => do
+        let i ← arg
+        some (s, outs ++ [HttpTable.readOutcome s i])
+      | _ => none
+    (ops.foldl stepOp (some ({}, []))).map (fun r => " ".intercalate r.2)
   | "openstream" => match input.splitOn "," with
     | [r, w] => some (OpenStream.render (OpenStream.newStream ({} : OpenStream.Cfg) (r == "1") (w == "1")))
     | _ => none
